@@ -150,6 +150,30 @@ def run(shard):
         except Exception as e:
             return "stage raised %s" % type(e).__name__
 
+    # ---- W7g: one source line that compiles to hundreds of kilobytes of code (a 300 000 element display): a single entry whose
+    #      bytecode gap needs ~1000 and ~2400 full-range pieces
+    if shard.get("nmodel", 0) and shard.get("shard", 0) == 0:
+        import lnotab_models as M_
+        for giant in (140000, 300000):
+            instrs = [(1, 5)] * 3 + [(1, 6)] * giant + [(1, 8)] * 2
+            try:
+                table = M_.linetable_310(instrs, 5) if H.IS310 else M_.lnotab_39(instrs, 5)
+                code = gen_lines.make_code(table, len(instrs), 5)
+            except Exception as e:
+                H.count("skipped:giant:" + type(e).__name__)
+                continue
+            state["case"] = {"k": "w7", "id": "w7g:%d" % giant, "table": list(table)[:40], "n_units": len(instrs), "firstlineno": 5,
+                             "stage": "giant-run", "program": "3x5 %dx6 2x8" % giant, "giant": giant}
+            state["origin"] = "model_emitted:giant-run"
+            H.count("model_tables")
+            H.feature("stage:giant-run")
+            import sys as _sys
+            old_limit = _sys.getrecursionlimit()
+            _sys.setrecursionlimit(1000)          # the interpreter's default (workers otherwise run with 5000)
+            try:
+                check_table(code)
+            finally:
+                _sys.setrecursionlimit(old_limit)
     # ---- W7: model-emitted tables
     rng = H.rng_for(shard.get("seed", 0), "w7", shard.get("shard", 0))
     for n in range(shard.get("nmodel", 0)):
@@ -245,7 +269,10 @@ def offline(ctx, results):
 def replay_shard(v):
     c = v["case"]
     s = {"interp": v["interp"], "label": "replay", "tier": "quick", "seed": 0, "cases": [], "nmodel": 0}
-    if c.get("k") == "w7":
+    if c.get("k") == "w7" and c.get("giant"):
+        s["nmodel"] = 1
+        s["shard"] = 0
+    elif c.get("k") == "w7":
         s["tables"] = [c]
     else:
         s["cases"] = [dict((k, x) for k, x in c.items() if k != "origin")]
